@@ -58,6 +58,11 @@ def run(ctx):
   from . import C02
   C02.statistics(ctx)
   C02.block_contraction(ctx)
+  # ... also through the device batching of the refresh: `unbatch(batch(x))` is the identity on positions, and each
+  # parameter gets back its own slice of the flat list of roots (a permuted list hands block k another block's root)
+  from . import C13
+  C13.batch_unbatch(ctx)
+  C13.redistribution(ctx)
 
 
 # ------------------------------------------------------------------ S1
